@@ -867,22 +867,22 @@ def check_C06(run):
     run.build()
     suites = [
         dict(name='crash-2k', consts=dict(Keys='{1, 2}', MaxTs='2', Sizes='{"s", "e4k+"}'), genlen=3 if q else 4,
-             acts=['write', 'close_active', 'create_active'], nkeys=2, sample=(1, 17) if q else (1, 3)),
+             acts=['write', 'close_active', 'create_active'], nkeys=2, sample=(1, 17) if q else (1, 12)),
         # a second session before the crash: the last blob is active again while its index file from the first
         # session is still on disk (stale as soon as something is appended)
         dict(name='crash-reopen', consts=dict(Keys='{1, 2}', MaxTs='2'), genlen=4 if q else 5,
              acts=['write', 'close_active', 'restart'], restarts_set=store.restarts(gs=(True,), dmgs=('keep',)), nkeys=2,
-             sample=(1, 12) if q else (1, 3)),
+             sample=(1, 12) if q else (1, 24)),
     ]
     if not q:
         # thorough: the larger sets of behaviours with images at step boundaries, and the behaviours of the quick
         # tier once more with an image after EVERY I/O event (the recording is written out once per image: the
         # size of the trace grows with the square of the behaviour's length)
         suites += [dict(name='crash-2k-dense', consts=dict(Keys='{1, 2}', MaxTs='2', Sizes='{"s", "e4k+"}'), genlen=3,
-                        acts=['write', 'close_active', 'create_active'], nkeys=2, sample=(1, 17), dense=True),
+                        acts=['write', 'close_active', 'create_active'], nkeys=2, sample=(1, 60), dense=True),
                    dict(name='crash-reopen-dense', consts=dict(Keys='{1, 2}', MaxTs='2'), genlen=4,
                         acts=['write', 'close_active', 'restart'], restarts_set=store.restarts(gs=(True,), dmgs=('keep',)), nkeys=2,
-                        sample=(1, 12), dense=True)]
+                        sample=(1, 50), dense=True)]
     images = failed = 0
     kinds = {}
     for s in suites:
